@@ -578,12 +578,8 @@ def _dispatch_and_publication(ctx):
     lm = repo.mod('beartype.claw._importlib._clawimpfileloader')
     from .c16 import loader_protocol
     loader_protocol(ctx, None, 'C05.R8')
-    sc = repo.find_def(lm.name, 'BeartypeSourceFileLoader.source_to_code')
-    tc = [c for c in walk_shallow(sc) if isinstance(c, ast.Call) and dotted(c.func) == 'BeartypeNodeTransformer']
-    kw = {k.arg: norm(k.value) for c in tc for k in c.keywords}
-    ctx.ob('C05.R8', 'source_to_code:transformer-gets-published-conf', lm.where(sc),
-           'the transformer is built from self._module_name and self._module_conf', len(tc) == 1 and
-           kw == {'module_name': 'self._module_name', 'conf': 'self._module_conf'}, f'{kw}')
+    from .c16 import source_to_code_protocol
+    source_to_code_protocol(ctx, 'C05.R8')
     um = repo.mod('beartype.claw._ast._clawastutil')
     kc = repo.find_def(um.name, 'BeartypeNodeTransformerUtilityMixin._make_node_keyword_conf')
     txt = [norm(k.value) for c in walk_shallow(kc) if isinstance(c, ast.Call) and dotted(c.func) == 'make_node_str' for k in c.keywords if k.arg == 'text']
